@@ -63,6 +63,82 @@ def generated_fact(name):
     return m.group(1) if m else None
 
 
+def failed_theorems(audit_failed):
+    """map `error: Properties/C19.lean:<line>` of a failed build to the enclosing theorem names"""
+    lines = []
+    for f in audit_failed:
+        lines += [int(m.group(1)) for m in re.finditer(r"Properties/C19\.lean:(\d+):", f)]
+    if not lines:
+        return []
+    src = open(os.path.join(core.LEAN, "Properties", "C19.lean"), encoding="utf-8").read().splitlines()
+    names = []
+    for ln in lines:
+        for i in range(min(ln, len(src)) - 1, -1, -1):
+            m = re.match(r"(theorem|example)\s*([A-Za-z0-9_']*)", src[i])
+            if m:
+                n = "C19." + m.group(2) if m.group(1) == "theorem" else "example at line %d" % (i + 1)
+                if n not in names:
+                    names.append(n)
+                break
+    return names
+
+
+def distribution(prof, label):
+    """measured distribution of what a generated stream exercised (read from the run directory before cleanup)"""
+    p = prof.paths(label)
+    if not (os.path.exists(p["ops"]) and os.path.exists(p["impl"])):
+        return {}
+    ops, impl = core.read_lines(p["ops"]), core.read_lines(p["impl"])
+    d = {}
+    if label == "ratelimit":
+        sec = 1000000000
+        c = {"served": 0, "blocked": 0, "windows_opened": 0, "in_window_exactly_at_1s": 0, "opened_at_1s_plus_1ns": 0,
+             "in_window_at_1s_minus_1ns": 0, "histories_with_2+_addresses": 0, "limiter_off_requests": 0, "via_xff": 0, "via_xff_list": 0,
+             "via_remoteaddr": 0, "ipv6_peer": 0}
+        addrs, prev_first = set(), {}
+        for o, a in zip(ops, impl):
+            t, r = o.split(), a.split()
+            if t[0] == "NEW":
+                if len(addrs) > 1:
+                    c["histories_with_2+_addresses"] += 1
+                addrs, prev_first = set(), {}
+                continue
+            addrs.add(t[1])
+            c["served" if r[0] == "S" else "blocked"] += 1
+            c[{"x": "via_xff", "l": "via_xff_list", "r": "via_remoteaddr"}[t[2]]] += 1
+            if int(t[1]) >= 100:
+                c["ipv6_peer"] += 1
+            if len(r) < 3 or r[1] == "-":
+                c["limiter_off_requests"] += 1
+                continue
+            now, first, cnt = int(t[4]), int(r[1]), int(r[2])
+            if cnt == 1:
+                c["windows_opened"] += 1
+                if t[1] in prev_first and now - prev_first[t[1]] == sec + 1:
+                    c["opened_at_1s_plus_1ns"] += 1
+            else:
+                if now - first == sec:
+                    c["in_window_exactly_at_1s"] += 1
+                if now - first == sec - 1:
+                    c["in_window_at_1s_minus_1ns"] += 1
+            prev_first[t[1]] = first
+        d = c
+    elif label == "cfgswitches":
+        combos, answers = set(), {}
+        for o, a in zip(ops, impl):
+            t = o.split()
+            if t[0] == "NEW":
+                combos.add(" ".join(x for x in t[1:] if x.split("=")[0] in ("push", "del", "bdel", "ref", "ro", "store")))
+            elif t[0] == "P":
+                answers.setdefault(t[1], set()).add(" ".join(a.split()[:2]))
+        d = {"distinct_switch_store_combinations": len(combos),
+             "distinct_answers_per_probe": {k: sorted(v) for k, v in sorted(answers.items())}}
+    elif label == "cfgbinary":
+        d = {"binary_runs": sum(1 for o in ops if o.startswith("BIN")), "early_signal_runs": sum(1 for o in ops if "sig=" in o),
+             "exit_status": sorted({x for a in impl for x in a.split() if x.startswith("exit=")})}
+    return d
+
+
 # ------------------------------------------------------------------ profiles
 
 def _cfg_profile(o, name):
@@ -155,7 +231,7 @@ def ratelimit_profile(o):
     os.makedirs(od, exist_ok=True)
     src = open(os.path.join(core.REPO, "olareg.go"), encoding="utf-8").read()
     n = src.count("time.Now()")
-    wired = n >= 1 and "verifNow" not in src
+    wired = n >= 1 and "verifNow" not in src and os.environ.get("VERIF_C19_CLOCK") != "shift"
     extra = {}
     if wired:
         with open(os.path.join(od, "olareg.go"), "w", encoding="utf-8") as f:
@@ -253,7 +329,8 @@ C19_MONITORS = {
     # rate limit
     "rate-window", "rate-isolation", "rate-off", "retry-after", "one-entry-per-address", "limiter-missing",
     # switches, warnings, store
-    "warnings-on-every-response", "rate-limit-unexpected", "read-unaffected-by-switches",
+    "warnings-on-every-response", "rate-limit-unexpected", "read-unaffected-by-switches", "switch-off-refuses", "switch-on-serves",
+    "read-only-denies-writes",
     "referrers-switch-only-referrers:dir", "referrers-switch-only-referrers:mem",
     # termination
     "sigterm-stops-server:early", "sigterm-stops-server:load", "sigterm-stops-server:binary", "store-closed-once", "storage-intact",
@@ -275,6 +352,10 @@ def check_C19(o, tier):
     if a["failed"]:
         # the obligations over the regenerated tables name what no longer holds; say which table moved
         o.notes["hint"] = "regenerated tables that differ from the accepted copies: %s" % (changed or "none")
+        names = failed_theorems(a["failed"])
+        o.notes["failed_theorems"] = names
+        if names:
+            core.log("C19: obligations that no longer check on the regenerated tables: " + ", ".join(names))
     o.cov["rule"] = ("C19: (1) SetDefaults on generated configurations (each of 18 fields unset/explicit, numbers from a pool with 0, negative, "
                      "default and other values) against Cfg.setDefaults; (2) arrival sequences of 4-25 requests from 1-3 client addresses (X-Forwarded-For "
                      "single/list, RemoteAddr with varying ports, IPv6 peer) with a virtual clock, bursts, steps to first+1s-1ns/+0/+1ns, 11 s gaps, limits "
@@ -295,12 +376,14 @@ def check_C19(o, tier):
     if prof is not None:
         profs.append(prof)
         check_profile(o, prof, "gen", {"VERIF_SEED": o.seed, "VERIF_N": 3000 if not thorough else 60000}, "ratelimit", C19_MONITORS)
+        o.notes.setdefault("distribution", {})["ratelimit"] = distribution(prof, "ratelimit")
 
     prof = switches_profile(o)
     if prof is not None:
         profs.append(prof)
         check_profile(o, prof, "gen", {"VERIF_SEED": o.seed, "VERIF_N": 60 if not thorough else 3000}, "cfgswitches", C19_MONITORS, known=known,
                       keep=lambda l: l.startswith("NEW"))
+        o.notes.setdefault("distribution", {})["cfgswitches"] = distribution(prof, "cfgswitches")
 
     prof = lifecycle_profile(o)
     if prof is not None:
@@ -314,6 +397,7 @@ def check_C19(o, tier):
         if thorough:
             params["VERIF_ALL"] = "1"
         check_profile(o, prof, "gen", params, "cfgbinary", C19_MONITORS, known=known)
+        o.notes.setdefault("distribution", {})["cfgbinary"] = distribution(prof, "cfgbinary")
 
     # every open known finding must still reproduce (a finding that stopped reproducing is reported, not silently kept)
     printed = " ".join(o.known)
